@@ -37,7 +37,7 @@ func run(c *lib.Ctx) error {
 	if c.Thorough() {
 		bounds = []bound{{2, 1, 2}, {1, 1, 5}}
 	}
-	c.Set("bounds", map[string]any{"exhaustive": bounds, "random_histories": c.Pick(24, 300), "map_growth_histories": c.Pick(12, 120), "history_length": 40, "big_lists": []int{33, 1057}})
+	c.Set("bounds", map[string]any{"exhaustive": bounds, "random_histories": c.Pick(24, 300), "map_growth_histories": c.Pick(12, 120), "map_grow_shrink_histories": c.Pick(9, 90), "history_length": 40, "big_lists": []int{33, 1057}})
 	seen := map[string]bool{}
 	for _, b := range bounds {
 		r, err := c.TLC(fmt.Sprintf("MCAlias(steps=%d,init=%d)", b.steps, b.ninit), lib.TLCRun{Dir: dir, Module: "MCAlias", Workers: 4, Timeout: 12 * time.Minute, HeapGB: 8,
@@ -112,6 +112,12 @@ func run(c *lib.Ctx) error {
 	lib.Parallel(ng, 4, func(g int) { grow[g] = growHistory(c, newRand(c.Seed*7919+int64(g)), g) })
 	hist = append(hist, grow...)
 	nh += ng
+	// maps grown past the array-node threshold and emptied again (9 variants x seeds; variant 0 directed)
+	ns := c.Pick(9, 90)
+	shrink := make([][]Event, ns)
+	lib.Parallel(ns, 4, func(g int) { shrink[g] = growShrinkHistory(c, newRand(c.Seed*104729+int64(g)), g) })
+	hist = append(hist, shrink...)
+	nh += ns
 	c.Sample(hist[2][:min(4, len(hist[2]))])
 	if os.Getenv("VERIF_CORRUPT") == "v" {
 		e := &hist[2][len(hist[2])-1]
